@@ -652,8 +652,13 @@ func decideC14(c c14Case, runnerLevel bool) Verdict {
 	if !reflect.DeepEqual(fresh, after) {
 		return failf("ParseMarkup(%q) depends on the parser's history %q:\n fresh:  %s\n reused: %s", c.Probe, c.History, showOutcome(fresh), showOutcome(after))
 	}
-	// a second parse of the same line on the same parser (the first result is kept, and must stay what it was)
+	// a second parse of the same line on the same parser (the first result is kept, and must stay what it was - unless
+	// the caller itself changes it, which it does now and then: the second parse must not see that either)
 	afterCopy := copyOutcome(after)
+	if len(c.Probe)%3 == 0 {
+		scribble(after)
+		afterCopy = copyOutcome(after)
+	}
 	again, p3 := parseWith(reused, c.Probe)
 	if p3 != nil || !reflect.DeepEqual(fresh, again) {
 		return failf("ParseMarkup(%q) twice on one parser gives different results:\n first:  %s\n second: %s", c.Probe, showOutcome(fresh), showOutcome(again))
@@ -878,13 +883,19 @@ var c14Long = Register(Prop[c14Case]{ID: "C14", Name: "long-history", Run: runC1
 	Gen: func(t *rapid.T) c14Case {
 		n := rapid.IntRange(20, 90).Draw(t, "length")
 		var c c14Case
+		// in a quarter of the cases the lines carry kilobytes of replacement text: whatever a parser accumulates over its
+		// life (counters, buffers) grows fast
+		bulk := ""
+		if rapid.IntRange(0, 3).Draw(t, "bulk") == 0 {
+			bulk = " [nomarkup]" + strings.Repeat("raw text ", rapid.SampledFrom([]int{100, 400, 1000}).Draw(t, "bulksize")) + "[/nomarkup] [select value=k k=\"" + strings.Repeat("chosen ", 150) + "\" /]"
+		}
 		pool := []string{renderMarkupLine(genMarkupLine(t)), renderMarkupLine(genMarkupLine(t)), genLiberalLine(t), renderMarkupLine(genMarkupLine(t))}
 		for i := 0; i < n; i++ {
 			switch rapid.IntRange(0, 5).Draw(t, "kind") {
 			case 0:
 				c.History = append(c.History, rapid.SampledFrom(pool).Draw(t, "pooled"))
 			case 1:
-				c.History = append(c.History, fmt.Sprintf("[a]line %d[/a] [b n=%d /] tail", i, i))
+				c.History = append(c.History, fmt.Sprintf("[a]line %d[/a] [b n=%d /] tail%s", i, i, bulk))
 			default:
 				c.History = append(c.History, fmt.Sprintf("%s #%d", rapid.SampledFrom(pool).Draw(t, "base"), i))
 			}
